@@ -387,8 +387,9 @@ func c19GraphExtra(c *Ctx, want int) {
 }
 
 // c19GraphTheorems: instances of the call-graph theorems on one program of the
-// fragment.  For PRNG-chosen inputs (renameInput to a fresh name) and callables
-// (renameCallable to a fresh name): the driver evaluates the decidable
+// fragment.  For PRNG-chosen inputs (renameInput to a fresh name, removeInput),
+// outputs (renameOutput to a fresh name) and callables (renameCallable to a
+// fresh name): the driver evaluates the decidable
 // hypothesis and the conclusion on the model; when the hypothesis holds, the
 // REAL edit is run (Refactor -> Apply -> Format -> recompile -> MakeCallGraph)
 // and the real graph after the edit must equal the graph the theorem predicts
@@ -422,7 +423,13 @@ func c19GraphTheorems(c *Ctx, cs *c19Case, plain *syntax.Ast, base *c19Compiled)
 	if c.Thorough {
 		n = 6
 	}
-	for _, cd := range append(append(pick(ins, n), pick(outs, n)...), pick(cals, 1)...) {
+	var rems []cand
+	for _, cd := range ins {
+		rems = append(rems, cand{"removeInput", cd.callable, cd.param})
+	}
+	all := append(append(pick(ins, n), pick(outs, n)...), pick(cals, 1)...)
+	all = append(all, pick(rems, n)...)
+	for _, cd := range all {
 		newName := "zz_fresh"
 		if cd.op == "renameCallable" {
 			newName = "ZZ_FRESH"
@@ -458,6 +465,11 @@ func c19GraphTheorems(c *Ctx, cs *c19Case, plain *syntax.Ast, base *c19Compiled)
 			continue
 		}
 		after, err := c19Compile(out, cs.Path)
+		if (err != nil || after.Graph == nil) && cd.op == "removeInput" {
+			// removals that do not compile are the known findings KF4/KF5, handled by the main edit loop
+			r.hist("graph-theorem:removeInput:real-result-does-not-compile")
+			continue
+		}
 		if err != nil || after.Graph == nil {
 			r.violate(Violation{Kind: "property", Key: "C19:graph-theorem:edited-program-does-not-compile",
 				What:  fmt.Sprintf("the hypothesis of the call-graph theorem for %s holds but the really edited program does not compile: %v", cd.op, err),
